@@ -1,6 +1,9 @@
 package checks
 
 import (
+	"errors"
+	"io"
+	"testing/iotest"
 	"fmt"
 	"math/big"
 	"os"
@@ -444,6 +447,33 @@ func c11Once(c *mon.Ctx) {
 		_ = os.Remove(path)
 		c.R.Count("evaluations", 3)
 		c.R.Count("loader_comparisons", 1)
+		// readers that deliver the same bytes differently (one byte per Read, half of what is asked, data together with
+		// io.EOF) are the same document; a reader that FAILS half-way is not a document at all
+		for rk, mk := range []func(io.Reader) io.Reader{iotest.OneByteReader, iotest.HalfReader, iotest.DataErrReader} {
+			cx, errX := lint.NewConfig(mk(strings.NewReader(d.doc)))
+			c.R.Count("evaluations", 1)
+			if (errX == nil) != (errS == nil) {
+				c.V("loaders-disagree-on-error", fmt.Sprintf("the reader loader answers differently when the same bytes arrive through reader kind %d: %v vs %v (%s)", rk, errX, errS, d.desc), "", map[string][]byte{"config.toml": []byte(d.doc)}, nil)
+			} else if errS == nil && k%21 == 0 {
+				o := c11Objs[(k+rk)%13]
+				ra, rb := c11All(), c11All()
+				ra.SetConfiguration(cs)
+				rb.SetConfiguration(cx)
+				if fa, fb := o.Reparse(), o.Reparse(); fa != nil && fb != nil {
+					sa, pa, _ := fa.Lint(ra)
+					sb, pb, _ := fb.Lint(rb)
+					if pa == nil && pb == nil && sa != nil && sb != nil && len(mon.Diff(mon.SnapOf(sa), mon.SnapOf(sb), false, false)) > 0 {
+						c.V("loaders-disagree", fmt.Sprintf("the same document read through reader kind %d gives different results (%s)", rk, d.desc), "", map[string][]byte{"config.toml": []byte(d.doc)}, nil)
+					}
+				}
+			}
+		}
+		if len(d.doc) > 8 {
+			if _, errT := lint.NewConfig(io.MultiReader(strings.NewReader(d.doc[:len(d.doc)/2]), iotest.ErrReader(errors.New("verif: injected read fault")))); errT == nil {
+				c.V("read-fault-swallowed", "NewConfig returns no error although its reader failed half-way through the document ("+d.desc+")", "", map[string][]byte{"config.toml": []byte(d.doc)}, nil)
+			}
+			c.R.Count("read_faults_injected", 1)
+		}
 		if (errS == nil) != (errR == nil) || (errS == nil) != (errF == nil) {
 			c.V("loaders-disagree-on-error", fmt.Sprintf("the string / reader / file loaders disagree on whether a document is acceptable: %v / %v / %v (%s)", errS, errR, errF, d.desc), "", map[string][]byte{"config.toml": []byte(d.doc)}, nil)
 			continue
